@@ -100,7 +100,7 @@ def _check(case):
     # the default tolerances (function AND step below 1e-12) are at rounding level; a run is only judged when it
     # reports success, so a looser, explicit solver tolerance is used and the residual test is 10x that
     kwargs = dict(method=method, return_info=True, remove_terminal=False,
-                  solver_settings={"func_tolerance": 1e-9, "step_tolerance": float("inf")})
+                  solver_settings={"func_tolerance": 1e-9, "step_tolerance": float("inf"), "max_iterations": 200})
     if method == "stacked_time":
         kwargs.update(terminal=case["terminal"], initial_guess=case["initial_guess"])
     try:
